@@ -3,7 +3,7 @@ from tools import vlib, cli
 
 RULE = ("the real binary under rich | quiet | json | json2 | --luacheck | --luacheck --ranges on generated inputs with multi-line ranges, "
         "zero-width ranges (tokenizer errors), non-ASCII text before and inside diagnostics, CRLF line endings, parse errors and clean "
-        "files; every style's output is parsed into rows (file, lint, severity, start line:col, message) and compared; every JSON line "
+        "files, under the default configuration and under one that sets firing lints to allow; every style's output is parsed into rows (file, lint, severity, start line:col, message) and compared; every JSON line "
         "must be one self-contained object; byte offsets and line/column of the json styles are recomputed from the source by the Lean "
         "location model and specification; non-trivial = a case with >= 2 diagnostics, a multi-line or zero-width range, CRLF, or non-ASCII text "
         "before a diagnostic")
@@ -75,11 +75,12 @@ def crashed(err):
     return "The application panicked" in err or "panicked at" in err
 
 
-def one_case(ctx, lines, d, fname, src):
+def one_case(ctx, lines, d, fname, src, cfg=()):
+    cfg = list(cfg)
     styles = {}
     diags_sx, locs = [], []
     # json2 first: byte ranges
-    rc, out, err = cli.run_selene(["--display-style", "json2", "--num-threads", "1", "--no-summary", fname], d)
+    rc, out, err = cli.run_selene(cfg + ["--display-style", "json2", "--num-threads", "1", "--no-summary", fname], d)
     if crashed(err):
         styles["json2"] = None
     else:
@@ -99,29 +100,40 @@ def one_case(ctx, lines, d, fname, src):
                 s2 = sl["span"]
                 locs.append(f"({s2['start']} {s2['start_line']} {s2['start_column']})")
         styles["json2"] = rows
-    rc, out, err = cli.run_selene(["--display-style", "json", "--num-threads", "1", "--no-summary", fname], d)
+    rc, out, err = cli.run_selene(cfg + ["--display-style", "json", "--num-threads", "1", "--no-summary", fname], d)
     if crashed(err):
         styles["json"] = None
     else:
         dj, _, bad = cli.parse_json_lines(out)
         styles["json"] = [(x["primary_label"]["filename"], x["code"], x["severity"].lower(), x["primary_label"]["span"]["start_line"] + 1,
                            x["primary_label"]["span"]["start_column"] + 1, x["message"]) for x in dj]
-    rc, out, err = cli.run_selene(["--display-style", "quiet", "--num-threads", "1", "--no-summary", "--color", "never", fname], d)
+    rc, out, err = cli.run_selene(cfg + ["--display-style", "quiet", "--num-threads", "1", "--no-summary", "--color", "never", fname], d)
     if crashed(err):
         styles["quiet"] = None
     else:
         q, _ = cli.parse_quiet(out)
         styles["quiet"] = [(x["file"], x["code"], x["sev"], int(x["line"]), int(x["col"]), x["msg"]) for x in q]
-    rc, out, err = cli.run_selene(["--display-style", "rich", "--num-threads", "1", "--no-summary", "--color", "never", fname], d)
+    rc, out, err = cli.run_selene(cfg + ["--display-style", "rich", "--num-threads", "1", "--no-summary", "--color", "never", fname], d)
     styles["rich"] = None if crashed(err) else parse_rich(out)
     # luacheck: parse errors are not printed in this mode; multi-line diagnostics are repeated once per line (first row compared)
     for name, extra in (("luacheck", []),):
-        rc, out, err = cli.run_selene(["--luacheck", "--num-threads", "1", fname] + extra, d)
+        rc, out, err = cli.run_selene(cfg + ["--luacheck", "--num-threads", "1", fname] + extra, d)
         if crashed(err):
             styles[name] = None
         else:
             rows = parse_luacheck(out, False)
             ref = styles.get("quiet") or []
+            # in this mode stdout consists of records only (parse errors are rendered by codespan, also here)
+            if not any(r[1] == "parse_error" for r in ref):
+                strict = re.compile(r"^[^:]+:\d+:\d+: \((E|W)000\) \[[a-z_0-9]+\] ")
+                for line in out.splitlines():
+                    if line.strip() and not strict.match(line):
+                        ctx.violation("implementation violates the specification: a line of the luacheck-compatible output is not one whole record `file:line:col: (E000|W000) [lint] message`",
+                                      f"file: {os.path.join(d, fname)}\nconfiguration arguments: {' '.join(cfg) or '(default)'}\nline: {line[:300]!r}\nsource:\n{src[:600]}")
+                        break
+                if out and not out.endswith("\n"):
+                    ctx.violation("implementation violates the specification: the luacheck-compatible output ends in the middle of a record (no line end)",
+                                  f"file: {os.path.join(d, fname)}\nconfiguration arguments: {' '.join(cfg) or '(default)'}\ntail: {out[-200:]!r}\nsource:\n{src[:600]}")
             ref_keys = {(r[0], r[1], r[2], r[5]) for r in ref}
             # keep first row per diagnostic: rows that coincide with a reference start, drop continuation rows (column 1 of a later line)
             refset = set(ref)
@@ -129,7 +141,7 @@ def one_case(ctx, lines, d, fname, src):
             cont = [r for r in rows if r not in refset]
             bad_cont = [r for r in cont if not (r[4] == 1 and (r[0], r[1], r[2], r[5]) in ref_keys)]
             styles[name] = first + bad_cont + [x for x in ref if x[1] == "parse_error"]  # parse errors use the codespan path in every mode
-    rc, out, err = cli.run_selene(["--luacheck", "--ranges", "--num-threads", "1", fname], d)
+    rc, out, err = cli.run_selene(cfg + ["--luacheck", "--ranges", "--num-threads", "1", fname], d)
     if crashed(err):
         styles["luacheck-ranges"] = None
     st_sx = []
@@ -174,6 +186,9 @@ def body(ctx):
         with open(os.path.join(d, fname), "w", newline="") as fh:
             fh.write(src)
         one_case(ctx, lines, d, fname, src)
+    # a second configuration in which lints that fire in these programs are set to `allow`: every style must leave
+    # them out, completely
+    cli.write_config(d, lints={"unused_variable": "allow", "empty_if": "allow", "divide_by_zero": "allow", "unbalanced_assignments": "deny"}, name="allow.toml")
     n = 25 if ctx.tier == "quick" else 400
     for i in range(n):
         src = gen_program(rng)
@@ -181,6 +196,11 @@ def body(ctx):
         with open(os.path.join(d, fname), "w", newline="") as fh:
             fh.write(src)
         one_case(ctx, lines, d, fname, src)
+        if i % 2 == 0:
+            one_case(ctx, lines, d, fname, src, cfg=["--config", "allow.toml"])
+    for name in ("warn", "mixed", "multirange", "nonascii_line2"):
+        if name in fixed:
+            one_case(ctx, lines, d, f"k_{name}.lua", fixed[name], cfg=["--config", "allow.toml"])
     outdir = os.path.join(ctx.workdir, "c20")
     os.makedirs(outdir, exist_ok=True)
     with open(os.path.join(outdir, "cases.tsv"), "w") as fh:
